@@ -147,6 +147,7 @@ type scenario struct {
 	Prefix   string    `json:"prefix"`
 	Subjects []subject `json:"subjects"`
 	Invalid  []string  `json:"invalid"`
+	Unset    bool      `json:"unsetSection"` // the whole section of the invalidated field is left unset (every field zero)
 	EnvNames []string  `json:"envNames"`
 }
 
@@ -165,6 +166,7 @@ type loadEvent struct {
 	Format     string          `json:"format"`
 	Subjects   []subjectResult `json:"subjects"`
 	Invalid    []string        `json:"invalid"`
+	Unset      bool            `json:"unsetSection"`
 	Err        string          `json:"err"`
 	NamesField bool            `json:"namesField"`
 	Msg        string          `json:"msg"`
@@ -289,6 +291,11 @@ func loadOne(id int, sc scenario, dir string, rng *rand.Rand) (loadEvent, error)
 		ev.Invalid = sc.Invalid
 		v := fieldByPath(reflect.ValueOf(defaults).Elem(), sc.Invalid)
 		v.Set(reflect.Zero(v.Type()))
+		if sc.Unset {
+			section := fieldByPath(reflect.ValueOf(defaults).Elem(), sc.Invalid[:len(sc.Invalid)-1])
+			section.Set(reflect.Zero(section.Type()))
+			ev.Unset = true
+		}
 	}
 	file := ""
 	if len(fileMap) > 0 || rng.Intn(3) == 0 {
